@@ -29,8 +29,17 @@ def run(tier):
         lines = rg.gen_valid(rng, o, 3000 if quick else 40000, wants)
         lines += rg.gen_escape_offsets(o, 70 if quick else 140)
         lines += rg.gen_duplicate_keys(rng, o)      # every ordered pair of value kinds under a repeated key
+        if label == "def":                          # number literals up to the documented 63 characters
+            base = len(lines)
+            ln, lw = rg.gen_long_numbers(rng, 120 if quick else 2000)
+            lines += ln
+            longwants = {base + i: w for i, w in enumerate(lw)}
+        else:
+            longwants = {}
         targets = [(l, bins[l]) for l in (("def", "arduino", "g2x1s1") if label == "def" else ("all",))]
-        rk.run_feed(chk, wd, f"valid-{label}", lines, dict(enumerate(wants)), targets)
+        allwants = dict(enumerate(wants))
+        allwants.update(longwants)
+        rk.run_feed(chk, wd, f"valid-{label}", lines, allwants, targets)
     # bounded-exhaustive token strings (includes every short valid text)
     rk.run_mc(chk, wd, rk.group_by_opts(bins, variants[:1]), [("tokens", "tokens", 3 if quick else 4, [2], "none", D)])
     return rk.finish(chk, "one evaluation = one valid text (or token string) through one input kind into one "
